@@ -67,7 +67,7 @@ Proof. eexists. reflexivity. Qed.
 Lemma buffer_len_pos : (0 < buffer_len)%nat.
 Proof.
   unfold buffer_len. pose proof (round_up_ge (Z.to_nat gen_writer_buffer_min)) as H.
-  assert (E : Z.to_nat gen_writer_buffer_min = 32%nat) by reflexivity. rewrite E in *. lia.
+  assert (E : (0 < Z.to_nat gen_writer_buffer_min)%nat) by (unfold gen_writer_buffer_min; lia). lia.
 Qed.
 
 Lemma swar_chunks_ok fuel : forall k bs, length bs = (k * n)%nat -> (length bs <= fuel)%nat -> Forall valid bs ->
